@@ -17,6 +17,7 @@ mod s_c09;
 mod s_c10;
 mod s_c11;
 mod s_c12;
+mod s_c13;
 mod s_c14;
 mod s_smoke;
 mod wire;
@@ -73,6 +74,7 @@ fn main() {
         "C10" => s_c10::run(&mut em, thorough, seed),
         "C11" => s_c11::run(&mut em, thorough, seed),
         "C12" => s_c12::run(&mut em, thorough, seed),
+        "C13" => s_c13::run(&mut em, thorough, seed),
         "C14" => s_c14::run(&mut em, thorough, seed),
         "smoke" => s_smoke::run(&mut em),
         "evalmix" => s_eval::run_profile(
